@@ -13,16 +13,17 @@ no unclassified site.  That a site belongs to its class is a syntactic, trusted 
 modelled: `./check C15` runs every backend × option variant in k separate processes and diffs
 every output file.
 
-## Full statement (FALSE of the current code)
+## The inventory statement
 
     theorem all_sites_order_insensitive : ∀ s ∈ sites, s.consumer.insensitive = true
 
-Ten sites write their elements to the output in iteration order (`emitted`):
-MoonBit `builtins` / `export` (ffi helper and export-wrapper order) and C# `bidirectional_types_src`
-/ resource maps fed to `by_resource`.  `all_sites_order_insensitive_full_false` refutes the
-statement, `emit_not_perm_invariant` shows that emission really depends on the order, and
-`all_sites_order_insensitive_partial` proves the statement for every other site; the check
-reproduces the nondeterminism of both backends across processes (known findings).
+holds of the current code (by `decide` over the regenerated table).  It was FALSE until the `fix:`
+commits 796b9eb (MoonBit: `builtins`, `ffi_imports`, `export` written with `uwriteln!` in hash order)
+and 4904f95 (C#: `bidirectional_types_src` joined in hash order, `by_resource` fed with HashMap keys)
+of /repo: ten sites were `emitted`, `all_sites_order_insensitive_full_false` refuted the statement at
+the time and the k-process diff reproduced the nondeterminism of both backends.  The containers are
+BTree-based / sorted now; a new `emitted` or unclassified site makes the theorem fail again.
+`emit_not_perm_invariant` records why `emitted` is not an acceptable consumer.
 -/
 namespace Witverif.Props.C15
 open Witverif.Generated.HashSites Witverif.Text.Determ
@@ -132,34 +133,20 @@ theorem emit_not_perm_invariant :
 
 /-! ## the inventory -/
 
-/-- FULL STATEMENT (false): every inventoried consumer is order-insensitive. -/
-def AllSitesOrderInsensitive : Prop := ∀ s ∈ sites, s.consumer.insensitive = true
+/-- every inventoried consumer of a hash iteration is order-insensitive; in particular no site is
+unclassified (a new, changed or unrecognised site appears as `.unclassified` and breaks this) and
+none writes its elements to the output in iteration order -/
+theorem all_sites_order_insensitive : ∀ s ∈ sites, s.consumer.insensitive = true := by decide
 
-/-- fingerprints of the sites known to emit in iteration order (classes `moonbit-hash-order-emitted`
-and `csharp-hash-order-emitted` of known_findings.jsonl) -/
-def knownEmitted : List String := [
-  "d30c98785ba6dd5b", "1196349e4f1da1e8", "e1d2d3aae2c84ee0", "d51e876d2fa053e2", "926c35731018ab48",
-  "fb4d6251d7f35067", "5af20907e1b33987", "c155c3b703d52766", "a7f195d43d0c467a", "cfe508f26b26c47b"]
+theorem no_unclassified_site :
+    ∀ s ∈ sites, s.consumer ≠ .unclassified ∧ s.consumer ≠ .firstMatch ∧ s.consumer ≠ .emitted := by decide
 
-theorem all_sites_order_insensitive_full_false : ¬ AllSitesOrderInsensitive := by
-  intro h
-  have : sites.all (fun s => s.consumer.insensitive) = true := List.all_eq_true.mpr h
-  revert this; decide
-
-/-- every site other than the ten known emitters is order-insensitive; in particular nothing is
-unclassified (a new, changed or unrecognised site would appear as `.unclassified` and break this). -/
-theorem all_sites_order_insensitive_partial :
-    ∀ s ∈ sites, s.fingerprint ∉ knownEmitted → s.consumer.insensitive = true := by decide
-
-theorem no_unclassified_site : ∀ s ∈ sites, s.consumer ≠ .unclassified ∧ s.consumer ≠ .firstMatch := by decide
-
-/-- the known emitters are exactly the order-sensitive sites of the table (no stale entry) -/
-theorem known_emitted_exact : (sensitiveSites.map (·.fingerprint)).Perm knownEmitted := by decide
+theorem no_sensitive_site : sensitiveSites = [] := by decide
 
 /-! ## non-vacuity -/
 
-example : sites.length = 36 := by decide
-example : (sites.filter (·.consumer.insensitive)).length = 26 := by decide
+example : sites.length = 27 := by decide
+example : (sites.filter (fun s => s.consumer == .sorted)).length = 5 := by decide
 example : sortBy (fun a b : Nat => decide (a ≤ b)) [3, 1, 2] = [1, 2, 3] := by decide
 example : btreeIter (fun a b : Nat => decide (a ≤ b)) [(2, "b.h"), (1, "a.c")] = [(1, "a.c"), (2, "b.h")] := by decide
 example : sortBy (fun a b : String => decide (a ≤ b)) ["b", "a"] = sortBy (fun a b : String => decide (a ≤ b)) ["a", "b"] := by decide
